@@ -393,3 +393,96 @@ func init() {
 	All["C10"].Rules += " R8"
 	addLevel("C10", "per-index tag-set results are merged over sorted series keys with the smaller side advancing.")
 }
+
+func init() {
+	old := All["C10"].Run
+	All["C10"].Run = func(c *an.Ctx) {
+		old(c)
+		c10filterOnlyIfComplete(c)
+		c10unescapeSinglePass(c)
+	}
+	All["C10"].Rules += " R9 R10"
+	addLevel("C10", "the series-key bloom filter is trusted only for an index that was built with it (an existing index directory without a filter directory keeps the filter off); the tag-value unescape is a single left-to-right decode (no successive replace passes that re-read their own output).")
+}
+
+// c10filterOnlyIfComplete — C10.R9.  getSeriesIdBySeriesKey answers "unknown series" from the bloom
+// filter without consulting the items.  That is only sound when every key of the index is in the
+// filter: an index directory that exists without a filter directory was built without the filter
+// and must keep it off whatever the configuration says, otherwise existing series get second ids.
+func c10filterOnlyIfComplete(c *an.Ctx) {
+	const T = "engine/index/tsi"
+	r := c.Rule("C10.R9", "K-GUARD", T+":(*MergeSetIndex).bloomFilterEnable — an existing index without a filter directory keeps the filter off")
+	f := fn(r, T+":MergeSetIndex.bloomFilterEnable")
+	if f == nil {
+		return
+	}
+	r.AddSites(1)
+	stats := f.Find(call(r, "lib/fileops:Stat"))
+	bf := stats.Filter("of the filter directory", func(s an.Site) bool {
+		ce, ok := s.Node.(*ast.CallExpr)
+		return ok && len(ce.Args) > 0 && strings.Contains(f.Canon(ce.Args[0]), "BloomFilterDirName")
+	})
+	off := f.Find(an.MReturn("(false, nil)", func(g *an.Fn, rs *ast.ReturnStmt) bool {
+		return len(rs.Results) == 2 && an.IsBoolLit(g.Info, rs.Results[0], false) && an.IsNilIdent(g.Info, rs.Results[1])
+	}))
+	if bf.Len() == 0 || off.Len() == 0 {
+		if !r.Failed() {
+			r.Fail(f.Name+": filter directory missing in an existing index ⇒ filter off", c.P.Pos(f.Body.Pos()), "bloomFilterEnable no longer looks at the filter directory of an existing index (Stat of …/%s: %d, `return false, nil`: %d): the configuration alone switches the filter on for an index that was built without it", "bloomfilter", bf.Len(), off.Len())
+		}
+		return
+	}
+	// the IsNotExist test that follows the Stat of the filter directory (no other Stat in between)
+	others := map[int]bool{}
+	for _, s := range stats.List {
+		others[s.V] = true
+	}
+	found := false
+	for e := range f.GuardEdges(an.AtomLike(`^os\.IsNotExist\(`, true)) {
+		for _, s := range bf.List {
+			cut := map[int]bool{}
+			for v := range others {
+				if v != s.V {
+					cut[v] = true
+				}
+			}
+			if f.FPath(f.G.Vs[s.V].Succ, e[0], cut, nil) == nil {
+				continue
+			}
+			found = true
+			if p := f.FPath([]int{e[1]}, f.G.Exit, off.Vs(), nil); p != nil {
+				r.Fail(f.Name+": filter directory missing in an existing index ⇒ filter off", c.P.Pos(f.G.Vs[e[0]].Node.Pos()), "when the filter directory of an existing index does not exist the function can return something else than (false, nil); path (lines): %s", f.DescribePath(p))
+			}
+		}
+	}
+	if !found {
+		r.Fail(f.Name+": filter directory missing in an existing index ⇒ filter off", c.P.Pos(f.Body.Pos()), "the result of the Stat of the filter directory is not tested with os.IsNotExist")
+	}
+}
+
+// c10unescapeSinglePass — C10.R10.  Tag keys and values are stored escaped (the separator bytes 0,
+// 1, 2 become two-byte sequences starting with the escape byte).  Decoding is a single
+// left-to-right pass; successive whole-buffer replacements re-read bytes an earlier pass
+// produced ("rack\x001" → "rack\x01") and rows are then stored under another value.
+func c10unescapeSinglePass(c *an.Ctx) {
+	const T = "engine/index/tsi"
+	r := c.Rule("C10.R10", "K-IDIOM", T+":unmarshalTagValue — the escape decoding does not chain whole-buffer replacements")
+	f := fn(r, T+":unmarshalTagValue")
+	if f == nil {
+		return
+	}
+	n := 0
+	ast.Inspect(f.Body, func(m ast.Node) bool {
+		ce, ok := m.(*ast.CallExpr)
+		if !ok {
+			return true
+		}
+		if cal := an.Callee(f.Info, ce); cal != nil && cal.Pkg() != nil && (cal.Pkg().Path() == "bytes" || cal.Pkg().Path() == "strings") && strings.HasPrefix(cal.Name(), "Replace") {
+			n++
+		}
+		return true
+	})
+	r.AddSites(1)
+	if n > 1 {
+		r.Fail(f.Name+": chained replacements", c.P.Pos(f.Body.Pos()), "unmarshalTagValue decodes the escapes with %d successive Replace passes: a byte produced by one pass is read again by the next (an escaped separator followed by '1' or '2' decodes to another byte)", n)
+	}
+}
